@@ -299,9 +299,21 @@ func runC14(c *config) {
 	o := c.out
 	r := newRng(c.seed, "c14")
 	if c.replay != "" {
+		rp := readReplay(c.replay)
+		if wh, ok := rp.Detail["wide_history"].(string); ok {
+			h := c14wDec(wh)
+			with, _ := c14wRun(h, true)
+			without, _ := c14wRun(h, false)
+			fmt.Printf("history: %s\n--- with the observer calls:\n%s\n--- without:\n%s\n", wh, with, without)
+			if with != without {
+				o.Fail("observers_noop", "", "final module differs with and without the observer calls (module-wide history)", map[string]interface{}{"wide_history": wh})
+			}
+			return
+		}
 		fmt.Println("replay: re-run ./check C14 with the same VERIF_SEED (histories are deterministic for a seed)")
 		return
 	}
+	c14Wide(c, newRng(c.seed, "c14wide"))
 	for i := 0; i < 3000*c.scale; i++ {
 		np := r.intn(3)
 		named := []bool{r.coin(), r.coin(), r.coin()}
